@@ -129,6 +129,7 @@ def main(argv=None) -> int:
     ap.add_argument("--explain")
     ap.add_argument("--all", action="store_true")
     ap.add_argument("--no-write", action="store_true", help="do not write evidence / report files (used by hand tools that run many analyses in parallel)")
+    ap.add_argument("--no-controls", action="store_true", help="hand tools: skip the positive controls (regression over seeded changes)")
     ap.add_argument("--selfcheck", action="store_true", help="setup: parse /repo, run every positive control")
     a = ap.parse_args(argv)
     try:
@@ -160,7 +161,7 @@ def main(argv=None) -> int:
             return rc
         if not a.prop:
             ap.error("property id required")
-        return run_property(a.prop, a.tier, write=not a.no_write)[0]
+        return run_property(a.prop, a.tier, write=not a.no_write, controls=not a.no_controls)[0]
     except AnalysisError as e:
         print(f"ANALYSIS-ERROR {e}")
         return 2
